@@ -50,9 +50,9 @@ Section Fields.
   Lemma ok_complete s n : okS s (complete s n). Proof. apply ok_set_ns. apply H_completed. Qed.
   Lemma ok_mark_completed s n : okS s (mark_completed s n).
   Proof. unfold mark_completed. destruct (failed (st s n)); [apply ok_refl|]. apply ok_set_ns. apply H_completed. Qed.
-  Lemma ok_register s n : okS s (register_interrupt s n).
+  Lemma ok_register s n : okS s (register_interrupt p s n).
   Proof.
-    unfold register_interrupt. set (s1 := with_ints s _ _). eapply ok_trans; [apply (ok_same s s1); reflexivity|].
+    unfold register_interrupt. destruct (in_ended_block p s n); [apply ok_refl|]. set (s1 := with_ints s _ _). eapply ok_trans; [apply (ok_same s s1); reflexivity|].
     apply ok_set_ns. apply H_cond_keep.
   Qed.
   Lemma ok_unregister s n : okS s (unregister_interrupt s n).
@@ -189,7 +189,7 @@ Section Fields.
     - intros b f k s0 H. pose proof (step_ok b f k s0) as O.
       destruct (step p e b f k s0); cbn [outcome_ok out_state] in *; eapply ok_trans; eauto.
     - intros s0 n H. eapply ok_trans; [exact H|]. eapply ok_trans; [|apply ok_set_error]. apply ok_set_ns. apply H_failed.
-    - intros s0 i sr H. eapply ok_trans; [exact H|]. apply ok_same. reflexivity.
+    - intros s0 n sr k H. eapply ok_trans; [exact H|]. apply ok_same. reflexivity.
     - intros s0 H. eapply ok_trans; [exact H|]. apply ok_same. reflexivity.
   Qed.
 
